@@ -2482,6 +2482,7 @@ class _Simu(_IObserver, _params.Updatable, ABC):
             problemType = self.problemType
 
         self.__Check_problemTypes(problemType)
+        self._Check_dofs(problemType, unknowns)
 
         assert len(nodes) > 0, "Empty node list"
         nodes = np.asarray(nodes)
